@@ -1056,7 +1056,8 @@ def WF (g : Geo) : Bool :=
    | _, _ => false)
 
 /-- the two header sizes (`10.2e` fields) print identically before and after rounding to three
-    significant digits (evaluated, not proved in general; the `10.2f` fields need no such hypothesis) -/
+    significant digits (always true when they fit: `Proofs.GeoFile.sizesStable_of_fits`; kept as an
+    executable cross-check) -/
 def SizesStable (g : Geo) : Bool :=
   writeField fE (roundE 2 g.hdr.atmosVolume).toVal == writeField fE g.hdr.atmosVolume.toVal &&
   writeField fE (roundE 2 g.hdr.atmosConnection).toVal == writeField fE g.hdr.atmosConnection.toVal
